@@ -14,10 +14,10 @@ pub static DEF: PropDef = PropDef {
     level: "exploration",
     rule: "cases: a generated pool of inputs (valid and invalid streams, files with and without embedded streams) and \
 generated call histories over it. (1) history independence: a sequence of ~40 calls of expand_zlib_chunks / \
-recreated_zlib_chunks / decompress_deflate_stream(verify in {false,true}) / recompress_deflate_stream, each result \
+recreated_zlib_chunks / decompress_deflate_stream(verify in {false,true}) / recompress_deflate_stream / compress_zstd / decompress_zstd, each result \
 digest compared with the first-seen result for that (function, input); (2) concurrency: 2..16 threads released by a \
 barrier run generated per-thread sequences over the shared (Arc) pool, every result compared with the sequential model; \
-(3) cross-process: a child process recomputes all digests of the pool (fresh address space, fresh RandomState) and must \
+(4) soak: one stream through decompress/recompress 70 000 times per worker process, every result equal to the first; (3) cross-process: a child process recomputes all digests of the pool (fresh address space, fresh RandomState) and must \
 agree. Non-trivial = a history in which an accepted input is evaluated at least twice with different predecessors or on \
 at least 2 threads; distinct = hash of (pool, history).",
     assumptions: &[
@@ -46,7 +46,8 @@ pub struct Pool {
 }
 
 /// operation kinds: 0 decompress(verify=false) 1 decompress(verify=true) 2 recompress of the
-/// stream's own split 3 expand 4 recreate of the file's own container
+/// stream's own split 3 expand 4 recreate of the file's own container 5 compress_zstd
+/// 6 decompress_zstd(compress_zstd)
 pub type Op = (u8, u8); // (kind, input index)
 
 fn digest_split(r: Result<Result<Split, LibErr>, Caught>) -> String {
@@ -88,10 +89,21 @@ fn run_op(pool: &Pool, der: &Derived, op: Op) -> String {
             None => "n/a".into(),
         },
         3 => digest_bytes(lib_expand(&pool.files[idx % pool.files.len()])),
-        _ => match &der.containers[idx % pool.files.len()] {
+        4 => match &der.containers[idx % pool.files.len()] {
             Some(e) => digest_bytes(lib_recreate(e)),
             None => "n/a".into(),
         },
+        5 => {
+            let f = &pool.files[idx % pool.files.len()];
+            digest_bytes(guard(|| preflate_rs::compress_zstd(f, 0).map_err(|e| err_info(&e))))
+        }
+        _ => {
+            let f = &pool.files[idx % pool.files.len()];
+            digest_bytes(guard(|| {
+                let c = preflate_rs::compress_zstd(f, 0).map_err(|e| err_info(&e))?;
+                preflate_rs::decompress_zstd(&c, 64 << 20).map_err(|e| err_info(&e))
+            }))
+        }
     }
 }
 
@@ -103,7 +115,7 @@ fn all_ops(pool: &Pool) -> Vec<Op> {
         }
     }
     for i in 0..pool.files.len() {
-        for k in 3..5u8 {
+        for k in 3..7u8 {
             v.push((k, i as u8));
         }
     }
@@ -151,7 +163,7 @@ fn plan_doc(pool: &Pool, plan: &Plan) -> Value {
 }
 
 fn mismatch(kind: &str, op: Op, want: &str, got: &str, extra: &str) -> Failure {
-    let fname = ["decompress(verify=false)", "decompress(verify=true)", "recompress", "expand", "recreate"][op.0.min(4) as usize];
+    let fname = ["decompress(verify=false)", "decompress(verify=true)", "recompress", "expand", "recreate", "compress_zstd", "zstd-roundtrip"][op.0.min(6) as usize];
     Failure::new(
         "C14",
         kind,
@@ -176,7 +188,7 @@ pub fn check(pool: &Pool, plan: &Plan, ctx: &mut Ctx) -> Result<(), Failure> {
         if op.0 < 3 {
             (op.0, (op.1 as usize % pool.streams.len()) as u8)
         } else {
-            (op.0.min(4), (op.1 as usize % pool.files.len()) as u8)
+            (op.0.min(6), (op.1 as usize % pool.files.len()) as u8)
         }
     };
     let accepted = |op: Op| model.get(&op).map(|d| d.starts_with("Ok")).unwrap_or(false);
@@ -287,7 +299,7 @@ pub fn check(pool: &Pool, plan: &Plan, ctx: &mut Ctx) -> Result<(), Failure> {
         ctx.nontrivial(fnv64(&key));
     }
     for (op, d) in model.iter() {
-        let fname = ["decompress0", "decompress1", "recompress", "expand", "recreate"][op.0 as usize];
+        let fname = ["decompress0", "decompress1", "recompress", "expand", "recreate", "compress_zstd", "zstd-roundtrip"][op.0.min(6) as usize];
         ctx.class(&format!("model:{}:{}", fname, d.split(':').next().unwrap_or("")));
     }
     Ok(())
@@ -299,7 +311,7 @@ fn gen_ops(dna: &mut Dna, n: usize, hot: Op) -> Vec<Op> {
             if dna.chance(35) {
                 hot
             } else {
-                (dna.below(5) as u8, dna.below(8) as u8)
+                (dna.below(7) as u8, dna.below(8) as u8)
             }
         })
         .collect()
@@ -309,6 +321,8 @@ fn eval_dna(dna_bytes: &[u8], ctx: &mut Ctx) -> Result<(), (Failure, Value)> {
     let mut dna = Dna::new(dna_bytes);
     // plan first (fixed DNA budget)
     let plan_bytes = dna.bytes(260);
+    let big_file = dna.chance(1);
+    let big_seed = dna.u32();
     let ns = dna.range(1, 3);
     let nf = dna.range(1, 2);
     let mut pool = Pool { streams: vec![], files: vec![] };
@@ -318,8 +332,19 @@ fn eval_dna(dna_bytes: &[u8], ctx: &mut Ctx) -> Result<(), (Failure, Value)> {
     for _ in 0..nf {
         pool.files.push(gen_file_opts(&mut dna, true).bytes);
     }
+    if big_file {
+        // a file whose expanded form exceeds 16 MiB (a stream of one repeated byte)
+        let n = (16 << 20) + 4096 + (big_seed as usize % (1 << 20));
+        let plain = vec![(big_seed >> 8) as u8; n];
+        let stream = crate::gen_comp::zlib_deflate_raw(&plain, &crate::gen_comp::ZCfg::simple(6)).unwrap();
+        let mut f = vec![0x78, 0x9c];
+        f.extend_from_slice(&stream);
+        f.extend_from_slice(&crate::gen_comp::adler32(&plain).to_be_bytes());
+        pool.files.push(f);
+        ctx.class("pool:file-expanding-beyond-16MiB");
+    }
     let mut pd = Dna::new(&plan_bytes);
-    let hot: Op = (pd.below(5) as u8, pd.below(4) as u8);
+    let hot: Op = (pd.below(7) as u8, pd.below(4) as u8);
     let hlen = pd.range(10, 40);
     let history = gen_ops(&mut pd, hlen, hot);
     let nthreads = [0usize, 2, 2, 3, 4, 8, 16][pd.below(7)];
@@ -338,7 +363,50 @@ fn eval_dna(dna_bytes: &[u8], ctx: &mut Ctx) -> Result<(), (Failure, Value)> {
     r.map_err(|f| (f, doc))
 }
 
+/// soak: the same accepted stream through decompress(verify=true) / recompress tens of
+/// thousands of times in one process; every result must equal the first (state that builds up
+/// over many calls: pools, caches, counters that wrap)
+fn soak(ctx: &mut Ctx, calls: u64) {
+    let plain: Vec<u8> = (0..600u32).map(|i| b"the quick brown fox "[(i % 20) as usize] ^ ((i / 97) as u8 & 1)).collect();
+    let stream = crate::gen_comp::zlib_deflate_raw(&plain, &crate::gen_comp::ZCfg::simple(6)).unwrap();
+    let doc = json!({"kind":"c14-soak","hex":hex(&stream),"calls":calls});
+    ctx.set_inflight(&doc);
+    if let Err(f) = soak_run(&stream, calls, ctx) {
+        if !ctx.is_known(&f) {
+            ctx.record_failure(&f, &doc);
+        }
+    }
+}
+
+fn soak_run(stream: &[u8], calls: u64, ctx: &mut Ctx) -> Result<(), Failure> {
+    let first = match lib_split(stream, true) {
+        Ok(Ok(s)) => s,
+        _ => return Ok(()),
+    };
+    let d0 = digest_split(Ok(Ok(first.clone())));
+    let r0 = digest_bytes(lib_recompress(&first.plain, &first.corr));
+    let mut i = 0u64;
+    while i < calls {
+        let d = digest_split(lib_split(stream, true));
+        if d != d0 {
+            return Err(mismatch("history-dependence", (1, 0), &d0, &d, &format!("call number {} of a soak run", i)));
+        }
+        let r = digest_bytes(lib_recompress(&first.plain, &first.corr));
+        if r != r0 {
+            return Err(mismatch("history-dependence", (2, 0), &r0, &r, &format!("call number {} of a soak run", i)));
+        }
+        i += 3; // decompress(verify=true) builds two predictors, recompress one
+        if i % 3000 == 0 {
+            ctx.set_inflight(&json!({"kind":"between"}));
+        }
+    }
+    ctx.evals(1);
+    ctx.class_n("soak-calls", calls);
+    Ok(())
+}
+
 fn worker(ctx: &mut Ctx) {
+    soak(ctx, 70_000);
     let cases = match ctx.cfg.tier {
         Tier::Quick => 4_000u64,
         Tier::Thorough => 80_000u64,
@@ -351,6 +419,11 @@ fn worker(ctx: &mut Ctx) {
 
 fn replay(doc: &Value, ctx: &mut Ctx) -> Result<(), Failure> {
     let bad = || Failure::new("C14", "harness", "bad-replay-doc", "replay document incomplete".into());
+    if doc.get("kind").and_then(|k| k.as_str()) == Some("c14-soak") {
+        let stream = doc_bytes(doc, "hex").ok_or_else(bad)?;
+        let calls = doc.get("calls").and_then(|c| c.as_u64()).unwrap_or(70_000);
+        return soak_run(&stream, calls, ctx);
+    }
     let pool = pool_from_doc(doc.get("pool").ok_or_else(bad)?).ok_or_else(bad)?;
     let ops = |k: &str| -> Vec<Op> {
         doc.get(k)
